@@ -1,9 +1,9 @@
 #!/bin/bash
-# verify_seed.sh <Cxx> : confirm a sub-agent's seeded change in its scratch worktree /tmp/seed/<Cxx>:
+# verify_seed.sh <Cxx> [base dir of the worktrees, default /tmp/seed] [name under seeded/, default <Cxx>] : confirm a sub-agent's seeded change in its scratch worktree /tmp/seed/<Cxx>:
 # the patch is exactly the worktree's diff, the unedited suite passes with it (but for grid_fault_edge_limits), the demonstration
 # fails with it and passes without it. On success copy OUT/ to /verif/seeded/<Cxx>/ and add what was run to meta.json.
 set -u
-ID="$1"; W=/tmp/seed/$ID; O=$W/OUT
+ID="$1"; BASE="${2:-/tmp/seed}"; DEST="${3:-$ID}"; W=$BASE/$ID; O=$W/OUT
 [ -s $O/patch.diff ] || { echo "no patch"; exit 2; }
 cd $W || exit 2
 git checkout -q -- source include 2>/dev/null
@@ -36,7 +36,7 @@ OKFAIL=1
 case "$FAILED" in ""|*grid_fault_edge_limits*) ;; esac
 NF=$(echo "$FAILED" | tr ';' '\n' | grep -v '^$' | grep -vc grid_fault_edge_limits)
 if [ "$RC_WITH" != 0 ] && [ "$RC_WITHOUT" = 0 ] && [ "$NF" = 0 ]; then
-  D=/verif/seeded/$ID; rm -rf $D; mkdir -p $D
+  D=/verif/seeded/$DEST; rm -rf $D; mkdir -p $D
   rm -f $O/demo
   cp -r $O/. $D/
   python3 - "$D/meta.json" "$FAILED" "$RC_WITH" "$RC_WITHOUT" "$W" <<'PY'
